@@ -1534,7 +1534,7 @@ def gen26(rng, tier):
     cfg = {'session': {'max_files': rng.randint(2, 6), 'max_reclen': 128}, 'faults': False}
     maxf = cfg['session']['max_files']
     names = ['S0.DAT'] if rng.random() < 0.7 else ['S0.DAT', 'S1.DAT']
-    seq_share = rng.random() < 0.35      # how often sequential modes mix in
+    seq_share = rng.choice([0.0, 0.0, 0.15, 0.4, 0.7])      # how often sequential modes mix in
     nops = rng.randint(8, 45) if tier == 'quick' else rng.randint(40, 200)
     ops = []
     opened = {}      # n -> (name, mode)
@@ -1546,7 +1546,7 @@ def gen26(rng, tier):
         if len(opened) < 2 or r < 0.14:
             n = rng.randint(1, maxf) if rng.random() < 0.95 else maxf + 1
             name = rng.choice(names)
-            if rng.random() < (seq_share if opened else seq_share / 2):
+            if rng.random() < seq_share:
                 mode = rng.choice('IOA')
             else:
                 mode = 'R'
